@@ -186,6 +186,42 @@ def gp_run(R, tree, n, gens, seed, initializer=None, init_name="standard"):
     return log + evs, {"k": "gp", "tree": tree, "n": n, "init": init_name}
 
 
+def simplegp_run(R, n, elitism, novelty, gens, seed, selection=("tournament", 3), inject=0):
+    """the repository's simple API builds its own step from (population_size, elitism, novelty): every generation of a
+    SimpleGP run has the configured size too"""
+    from geml.simplegp import SimpleGP
+    g = search_grammar()
+    obs = GenObserver()
+    exc = ""
+    try:
+        initial = None
+        if inject:
+            rs0 = NativeRandomSource(seed + 1)
+            rep0 = TreeBasedRepresentation(g, MaxDepthDecider(rs0, g, 3))
+            initial = [rep0.create_genotype(rs0) for _ in range(inject)]
+        sgp = SimpleGP(fit1, g, minimize=bool(seed % 2), max_depth=3, max_time=10 ** 9, max_evaluations=10 ** 9, seed=seed,
+                       population_size=n, elitism=elitism, novelty=novelty, selection_method=selection,
+                       initial_population=initial)
+        sgp.gp.tracker.recorders.append(obs)
+
+        class GenBudget(EvaluationBudget):
+            def __init__(self):
+                self.checks = 0
+
+            def is_done(self, tr):
+                self.checks += 1
+                return self.checks > gens
+        sgp.gp.budget = GenBudget()
+        with time_limit(30):
+            sgp.search()
+    except Exception as e:
+        exc = exc_name(e)
+    evs = [{"e": "generation", "g": gg, "size": sz, "n": n} for gg, sz in sorted(obs.per_gen.items())]
+    if exc:
+        evs.append({"e": "runfail", "exc": exc})
+    return evs, {"k": "gp", "tree": {"k": "simplegp", "subs": [], "ws": [elitism, novelty]}, "n": n, "init": f"inject{inject}"}
+
+
 def initializer_events(R, seed):
     """every initialiser asked for k; injected initial populations of every length 0..k+2"""
     env = Env(seed)
@@ -535,6 +571,12 @@ def main():
         for n in ([2, 3, 7, 10, 11, 19, 20] if quick else list(range(2, 41))):
             ev, cfg = gp_run(R, dflt, n, 3, 7000 + n)
             batch.trace(f"gp/default/{n}", ev, cfg)
+            nev += len(ev)
+        for i, (n, el, nov, inj) in enumerate([(2, 0, 0, 0), (2, 1, 1, 0), (3, 1, 1, 0), (5, 1, 0, 2), (7, 2, 3, 0), (10, 1, 1, 10),
+                                               (11, 5, 5, 3), (20, 10, 10, 0), (9, 0, 9, 0), (9, 9, 0, 12)]
+                                              + ([] if quick else [(n, n // 3, n // 4, n // 2) for n in range(4, 41)])):
+            ev, cfg = simplegp_run(R, n, el, nov, 3, 4000 + i, inject=inj)
+            batch.trace(f"gp/simplegp/{n}/{el}/{nov}/{inj}", ev, cfg)
             nev += len(ev)
         ev = initializer_events(R, 77 + a.seed)
         batch.trace("initializers", ev, {"k": "init"})
